@@ -7,6 +7,7 @@
 -/
 import MiniMoka.ConcF
 import MiniMoka.Lemmas.ConcM
+import MiniMoka.Lemmas.SyncExact
 
 namespace MiniMoka
 namespace ConcF
@@ -2102,6 +2103,505 @@ theorem finv_mstep_mapsub {p : Params} (hq : NoQuirks p) {c c' : FState} (h : FI
         rcases hcases with e | e
         · intro k ve hk; rw [e] at hk; exact hk
         · rw [e]; exact (micro_frame hq r.explicit c.s r.phase).1.mapSub hkn
+    · rw [if_neg ht] at hs; cases hs
+
+/-! ### every run ends -/
+
+/-- From any program counter of the current code, the application of the `Upsert` finishes. -/
+theorem wpath_done (p : Params) (s : SState) (pc : WPc) (hl : ∃ Qr, WLocal p s Qr pc) : ∃ s', WPath p .good (s, pc) (s', none) := by
+  have hvict : ∀ u nw vs sk s0, ∃ s', WPath p .good (s0, .victims u nw vs sk) (s', none) :=
+    fun u nw vs sk s0 => ⟨_, wpath_victims p u nw vs s0 sk⟩
+  have hrej : ∀ u sk s0, ∃ s', WPath p .good (s0, .reject u sk) (s', none) :=
+    fun u sk s0 => ⟨_, WPath.last rfl⟩
+  have hscan : ∀ u nw cf rest acc s0, ∃ s', WPath p .good (s0, .scan u nw cf rest acc) (s', none) := by
+    intro u nw cf rest acc s0
+    have h1 := wpath_scan p s0 u nw cf rest acc
+    generalize admitLoop p s0 nw cf rest acc = a at h1
+    unfold finishScan at h1
+    by_cases hc : a.vw ≥ nw ∧ cf > a.vf
+    · rw [if_pos hc] at h1
+      dsimp only at h1
+      obtain ⟨s', h2⟩ := hvict u nw a.victims a.skipped s0
+      exact ⟨s', h1.trans rfl h2⟩
+    · rw [if_neg hc] at h1
+      obtain ⟨s', h2⟩ := hrej u a.skipped s0
+      exact ⟨s', h1.trans rfl h2⟩
+  have hdisp : ∀ u nw cur s0, ∃ s', WPath p .good (s0, .dispatch u nw cur) (s', none) := by
+    intro u nw cur s0
+    by_cases c1 : (getInfo s0 u.ve.info).admitted = true
+    · exact ⟨applyUpdate p s0 u.ve u.oldW nw, WPath.last (by simp only [wstep, if_pos c1])⟩
+    · by_cases c2 : (!p.q.d7 && !cur) = true
+      · exact ⟨s0, WPath.last (by simp only [wstep, if_neg c1, if_pos c2])⟩
+      · by_cases c3 : hasEnoughCapacity p nw s0 = true
+        · exact ⟨handleAdmit p s0 u.key u.hash u.ve nw,
+            WPath.last (by simp only [wstep, if_neg c1, if_neg c2, if_pos c3])⟩
+        · by_cases c4 : tooBig p nw = true
+          · exact ⟨removeCandidate p s0 u.key u.ve,
+              WPath.last (by simp only [wstep, if_neg c1, if_neg c2, if_neg c3, if_pos c4])⟩
+          · obtain ⟨s', h2⟩ := hscan u nw (s0.sk.frequency u.hash) s0.prob {} s0
+            exact ⟨s', WPath.step (s1 := s0)
+              (by simp only [wstep, if_neg c1, if_neg c2, if_neg c3, if_neg c4]) h2⟩
+  cases pc with
+  | clearDirty u =>
+    obtain ⟨s', h2⟩ := hdisp u _ _ (withInfo s u.ve.info (fun i => { i with dirty := false }))
+    exact ⟨s', WPath.step (pc1 := .readCurrent u) rfl (WPath.step (pc1 := .dispatch u _ _) rfl h2)⟩
+  | readCurrent u =>
+    obtain ⟨s', h2⟩ := hdisp u _ _ s
+    exact ⟨s', WPath.step (pc1 := .dispatch u _ _) rfl h2⟩
+  | dispatch u nw cur => exact hdisp u nw cur s
+  | scan u nw cf rest acc => exact hscan u nw cf rest acc s
+  | victims u nw vs sk => exact hvict u nw vs sk s
+  | reject u sk => exact hrej u sk s
+  | readCurrentB1 u => obtain ⟨_, h⟩ := hl; exact h.elim
+  | clearDirtyB1 u nw cur => obtain ⟨_, h⟩ := hl; exact h.elim
+  | victimsB2 u nw vs sk ev al => obtain ⟨_, h⟩ := hl; exact h.elim
+  | putBackB2 u ev sk => obtain ⟨_, h⟩ := hl; exact h.elim
+
+/-- From any phase, the run of `ConcM` finishes. -/
+theorem mpath_done (p : Params) (ex : Bool) (s : SState) (ph : Phase) :
+    ∃ s', MPath p ex (s, ph) (s', none) := by
+  have hfin : ∀ s0, ∃ s', MPath p ex (s0, .finish) (s', none) := by
+    intro s0
+    cases ex with
+    | true => exact ⟨_, MPath.last rfl⟩
+    | false => exact ⟨_, MPath.last rfl⟩
+  have hlru : ∀ s0, ∃ s', MPath p ex (s0, lruStart p s0) (s', none) := by
+    intro s0
+    obtain ⟨s', h2⟩ := hfin (if weightsToEvict p s0 > 0
+      then evictLruLoop p Gen.SYNC_EVICTION_BATCH_SIZE s0 (weightsToEvict p s0) 0 else s0)
+    exact ⟨s', (mpath_lruStart p ex s0).trans rfl h2⟩
+  have hafter : ∀ s0, ∃ s', MPath p ex (s0, afterLoop p s0) (s', none) := by
+    intro s0
+    obtain ⟨s', h2⟩ := hlru (if (p.hasExpiry || s0.va.isSome) = true then evictExpired p s0 else s0)
+    exact ⟨s', (mpath_afterLoop p ex s0).trans rfl h2⟩
+  have hpass : ∀ f s0, ∃ s', MPath p ex (s0, passStart p f s0) (s', none) := by
+    intro f s0
+    obtain ⟨s', h2⟩ := hafter (syncLoop p f s0)
+    exact ⟨s', (mpath_loop p ex f s0).trans rfl h2⟩
+  have henable : ∀ f s0, ∃ s', MPath p ex (s0, .enable f) (s', none) := by
+    intro f s0
+    by_cases hc : ((if shouldEnableSketch p s0 = true then enableSketch p s0 else s0).readQ.length
+          ≥ Gen.READ_LOG_FLUSH_POINT ||
+        (if shouldEnableSketch p s0 = true then enableSketch p s0 else s0).writeQ.length
+          ≥ Gen.WRITE_LOG_FLUSH_POINT) = true
+    · obtain ⟨s', h2⟩ := hpass f (if shouldEnableSketch p s0 = true then enableSketch p s0 else s0)
+      refine ⟨s', MPath.step (ph1 := passStart p f
+        (if shouldEnableSketch p s0 = true then enableSketch p s0 else s0)) ?_ h2⟩
+      simp only [micro]; rw [if_pos hc]
+    · obtain ⟨s', h2⟩ := hafter (if shouldEnableSketch p s0 = true then enableSketch p s0 else s0)
+      refine ⟨s', MPath.step (ph1 := afterLoop p
+        (if shouldEnableSketch p s0 = true then enableSketch p s0 else s0)) ?_ h2⟩
+      simp only [micro]; rw [if_neg hc]
+  have hwrites : ∀ f n s0, ∃ s', MPath p ex (s0, .writes f n) (s', none) := by
+    intro f n s0
+    obtain ⟨s', h2⟩ := henable f (applyWrites p n s0)
+    exact ⟨s', (mpath_writes p ex f n s0).trans rfl h2⟩
+  cases ph with
+  | reads f n =>
+    obtain ⟨s', h2⟩ := hwrites f (applyReads p n s).writeQ.length (applyReads p n s)
+    exact ⟨s', (mpath_reads p ex f n s).trans rfl h2⟩
+  | writes f n => exact hwrites f n s
+  | enable f => exact henable f s
+  | expireWo n =>
+    have h1 := mpath_expireWo p ex n s
+    have hao : ∀ s1, ∃ s', MPath p ex (s1, aoStart p s1) (s', none) := by
+      intro s1
+      unfold aoStart
+      by_cases h2 : (p.tti.isSome || s1.va.isSome) = true
+      · rw [if_pos h2]
+        obtain ⟨s', h3⟩ := hlru (removeExpiredAo p Gen.SYNC_EVICTION_BATCH_SIZE s1)
+        exact ⟨s', (mpath_expireAo p ex _ s1).trans rfl h3⟩
+      · rw [if_neg h2]; exact hlru s1
+    obtain ⟨s', h3⟩ := hao (removeExpiredWo p n s)
+    exact ⟨s', h1.trans rfl h3⟩
+  | expireAo n =>
+    obtain ⟨s', h3⟩ := hlru (removeExpiredAo p n s)
+    exact ⟨s', (mpath_expireAo p ex n s).trans rfl h3⟩
+  | lru n wte ev =>
+    obtain ⟨s', h3⟩ := hfin (evictLruLoop p n s wte ev)
+    exact ⟨s', (mpath_lru p ex wte n s ev).trans rfl h3⟩
+  | finish => exact hfin s
+
+theorem fpath_of_mpath {p : Params} {ex : Bool} {a : SState × Phase} {b : SState × Option Phase}
+    (h : MPath p ex a b) : FPath p .good ex (a.1, a.2, none) (b.1, b.2, none) := by
+  induction h with
+  | refl s ph => exact FPath.refl _ _ _
+  | @step s s1 ph ph1 r hm _ ih =>
+    have h1 := fpath_of_micro p ex s ph
+    rw [hm] at h1
+    exact h1.trans rfl ih
+  | @last s s1 ph hm =>
+    have h1 := fpath_of_micro p ex s ph
+    rw [hm] at h1
+    exact h1
+
+/-- A back-to-back path is a list of `mStep t` events. -/
+theorem runEvs_of_fpath' {p : Params} {v : Variant} {ex : Bool} {a : SState × Phase × Option WPc}
+    {b : SState × Option Phase × Option WPc} (h : FPath p v ex a b) (t : Tid)
+    (pd : List (Tid × Pend)) :
+    ∃ n, runEvs p v ⟨a.1, pd, some ⟨t, ex, a.2.1, a.2.2⟩⟩ (List.replicate n (.mStep t)) =
+      some ⟨b.1, pd, b.2.1.map fun ph => ⟨t, ex, ph, b.2.2⟩⟩ := by
+  induction h with
+  | refl s ph w => exact ⟨0, rfl⟩
+  | step hm _ ih =>
+    obtain ⟨n, he⟩ := ih
+    refine ⟨n + 1, ?_⟩
+    simp only [List.replicate_succ, runEvs, step, if_true, hm, Option.map_some]
+    exact he
+  | last hm =>
+    refine ⟨1, ?_⟩
+    simp only [List.replicate_succ, List.replicate_zero, runEvs, step, if_true, hm, Option.map_none]
+
+/-- From every state of the invariant with a run in progress, micro-steps of the running thread
+end the run. -/
+theorem run_terminates {p : Params} {c : FState} (h : FInv p c) (r : FRun)
+    (hr : c.run = some r) :
+    ∃ n s', runEvs p .good c (List.replicate n (.mStep r.tid)) = some ⟨s', c.pending, none⟩ := by
+  unfold FInv at h
+  rw [hr] at h
+  dsimp only at h
+  have hc : c = ⟨c.s, c.pending, some ⟨r.tid, r.explicit, r.phase, r.w⟩⟩ := by
+    cases c; simp only at hr; rw [hr]
+  -- finish the `Upsert` being applied, if any
+  have h1 : ∃ s1, FPath p .good r.explicit (c.s, r.phase, r.w) (s1, some r.phase, none) := by
+    cases hw : r.w with
+    | none => exact ⟨c.s, FPath.refl _ _ _⟩
+    | some pc =>
+      rw [hw] at h
+      obtain ⟨s1, hp⟩ := wpath_done p c.s pc ⟨_, h.2.2⟩
+      exact ⟨s1, fpath_of_wpath hp r.phase⟩
+  obtain ⟨s1, p1⟩ := h1
+  obtain ⟨s2, p2⟩ := mpath_done p r.explicit s1 r.phase
+  have p3 := p1.trans rfl (fpath_of_mpath p2)
+  obtain ⟨n, he⟩ := runEvs_of_fpath' p3 r.tid c.pending
+  refine ⟨n, s2, ?_⟩
+  rw [hc]
+  exact he
+
+/-! ### without a capacity limit: no size eviction, no admission scan -/
+
+def notLru : Phase → Prop
+  | .lru _ _ _ => False
+  | _ => True
+
+theorem lruStart_none {p : Params} (hcap : p.cap = none) (s : SState) : lruStart p s = .finish := by
+  unfold lruStart weightsToEvict
+  rw [hcap]
+  simp
+
+theorem aoStart_notLru {p : Params} (hcap : p.cap = none) (s : SState) : notLru (aoStart p s) := by
+  unfold aoStart
+  split
+  · trivial
+  · rw [lruStart_none hcap]; trivial
+
+theorem afterLoop_notLru {p : Params} (hcap : p.cap = none) (s : SState) :
+    notLru (afterLoop p s) := by
+  unfold afterLoop
+  split
+  · split
+    · trivial
+    · exact aoStart_notLru hcap s
+  · rw [lruStart_none hcap]; trivial
+
+theorem passStart_notLru {p : Params} (hcap : p.cap = none) (f : Nat) (s : SState) :
+    notLru (passStart p f s) := by
+  cases f with
+  | zero => exact afterLoop_notLru hcap s
+  | succ f => trivial
+
+theorem micro_notLru {p : Params} (hcap : p.cap = none) (ex : Bool) (s : SState) (ph : Phase)
+    (hph : notLru ph) (ph' : Phase) (h : (micro p ex s ph).2 = some ph') : notLru ph' := by
+  cases ph with
+  | reads f n =>
+    cases n with
+    | zero => simp only [micro] at h; rw [← Option.some.inj h]; trivial
+    | succ n =>
+      simp only [micro] at h
+      split at h <;> (rw [← Option.some.inj h]; trivial)
+  | writes f n =>
+    cases n with
+    | zero => simp only [micro] at h; rw [← Option.some.inj h]; trivial
+    | succ n =>
+      simp only [micro] at h
+      split at h <;> (rw [← Option.some.inj h]; trivial)
+  | enable f =>
+    simp only [micro] at h
+    split at h
+    · split at h
+      · rw [← Option.some.inj h]; exact passStart_notLru hcap _ _
+      · rw [← Option.some.inj h]; exact afterLoop_notLru hcap _
+    · split at h
+      · rw [← Option.some.inj h]; exact passStart_notLru hcap _ _
+      · rw [← Option.some.inj h]; exact afterLoop_notLru hcap _
+  | expireWo n =>
+    cases n with
+    | zero => simp only [micro] at h; rw [← Option.some.inj h]; exact aoStart_notLru hcap _
+    | succ n =>
+      simp only [micro] at h
+      split at h
+      · rw [← Option.some.inj h]; trivial
+      · rw [← Option.some.inj h]; exact aoStart_notLru hcap _
+  | expireAo n =>
+    cases n with
+    | zero =>
+      simp only [micro] at h; rw [← Option.some.inj h, lruStart_none hcap]; trivial
+    | succ n =>
+      simp only [micro] at h
+      split at h
+      · rw [← Option.some.inj h]; trivial
+      · rw [← Option.some.inj h, lruStart_none hcap]; trivial
+  | lru n wte ev => exact hph.elim
+  | finish =>
+    cases ex <;> (simp only [micro] at h; cases h)
+
+def simplePc : WPc → Prop
+  | .clearDirty _ => True
+  | .readCurrent _ => True
+  | .dispatch _ _ _ => True
+  | _ => False
+
+/-- Without `max_capacity` a run never enters the LRU eviction loop and an `Upsert` never gets
+to the admission scan. -/
+def Simple (c : FState) : Prop :=
+  ∀ r, c.run = some r → notLru r.phase ∧ ∀ pc, r.w = some pc → simplePc pc
+
+theorem wstep_simple {p : Params} (hcap : p.cap = none) (s : SState) (pc : WPc)
+    (h : simplePc pc) (pc' : WPc) (h2 : (wstep p .good s pc).2 = some pc') : simplePc pc' := by
+  cases pc with
+  | clearDirty u => simp only [wstep] at h2; rw [← Option.some.inj h2]; trivial
+  | readCurrent u => simp only [wstep] at h2; rw [← Option.some.inj h2]; trivial
+  | dispatch u nw cur =>
+    simp only [wstep, hasEnoughCapacity_none hcap, if_true] at h2
+    split at h2
+    · cases h2
+    · split at h2 <;> cases h2
+  | scan u nw cf rest acc => exact h.elim
+  | victims u nw vs sk => exact h.elim
+  | reject u sk => exact h.elim
+  | readCurrentB1 u => exact h.elim
+  | clearDirtyB1 u nw cur => exact h.elim
+  | victimsB2 u nw vs sk ev al => exact h.elim
+  | putBackB2 u ev sk => exact h.elim
+
+theorem step_simple {p : Params} (hcap : p.cap = none) {c c' : FState} (h : Simple c)
+    (e : ConcM.Ev) (hs : step p .good c e = some c') : Simple c' := by
+  cases e with
+  | other e0 =>
+    simp only [step] at hs
+    split at hs
+    · cases h0 : ConcS.step p ⟨c.s, c.pending⟩ e0 with
+      | none => rw [h0] at hs; cases hs
+      | some c1 => rw [h0] at hs; rw [← Option.some.inj hs]; exact h
+    · cases hs
+  | mBegin t ex =>
+    simp only [step] at hs
+    cases hr : c.run with
+    | some r =>
+      rw [hr] at hs
+      dsimp only at hs
+      split at hs
+      · cases hs
+      · split at hs
+        · rw [← Option.some.inj hs]; exact h
+        · cases hs
+    | none =>
+      rw [hr] at hs
+      dsimp only at hs
+      rw [← Option.some.inj hs]
+      intro r hr'
+      have e := Option.some.inj hr'
+      rw [← e]
+      exact ⟨passStart_notLru hcap (Gen.MAX_SYNC_REPEATS + 1) (beginRun c.s ex),
+        fun pc hx => by cases hx⟩
+  | mStep t =>
+    simp only [step] at hs
+    cases hr : c.run with
+    | none => rw [hr] at hs; cases hs
+    | some r =>
+      rw [hr] at hs
+      dsimp only at hs
+      obtain ⟨g1, g2⟩ := h r hr
+      by_cases ht : r.tid = t
+      · rw [if_pos ht] at hs
+        rw [← Option.some.inj hs]
+        intro r' hr'
+        dsimp only at hr'
+        cases hw : r.w with
+        | some pc =>
+          have hm : fmicro p .good r.explicit c.s r.phase (some pc) =
+              ((wstep p .good c.s pc).1, some r.phase, (wstep p .good c.s pc).2) := rfl
+          rw [hw, hm] at hr'
+          simp only [Option.map_some] at hr'
+          rw [← Option.some.inj hr']
+          exact ⟨g1, fun pc' hx => wstep_simple hcap c.s pc (g2 pc hw) pc' hx⟩
+        | none =>
+          rw [hw] at hr'
+          have hcases : (∃ f n u, r.phase = .writes f (n + 1) ∧
+              (fmicro p .good r.explicit c.s r.phase none).2 =
+                (some (.writes f n), some (.clearDirty u))) ∨
+              ((fmicro p .good r.explicit c.s r.phase none).2 =
+                ((micro p r.explicit c.s r.phase).2, none)) := by
+            cases hph : r.phase with
+            | writes f n =>
+              cases n with
+              | zero => exact Or.inr rfl
+              | succ n =>
+                cases hq' : c.s.writeQ with
+                | nil => exact Or.inr (by simp only [fmicro, hq'])
+                | cons op rest =>
+                  cases op with
+                  | remove k ve => exact Or.inr (by simp only [fmicro, hq'])
+                  | upsert key hash ve oldW newW =>
+                    exact Or.inl ⟨f, n, ⟨key, hash, ve, oldW, newW⟩, rfl,
+                      by simp only [fmicro, hq', firstPc]⟩
+            | reads f n => exact Or.inr rfl
+            | enable f => exact Or.inr rfl
+            | expireWo n => exact Or.inr rfl
+            | expireAo n => exact Or.inr rfl
+            | lru n wte ev => exact Or.inr rfl
+            | finish => exact Or.inr rfl
+          rcases hcases with ⟨f, n, u, _, hm⟩ | hm
+          · rw [hm] at hr'
+            simp only [Option.map_some] at hr'
+            rw [← Option.some.inj hr']
+            exact ⟨trivial, fun pc' hx => by rw [← Option.some.inj hx]; trivial⟩
+          · rw [hm] at hr'
+            cases hph : (micro p r.explicit c.s r.phase).2 with
+            | none => rw [hph] at hr'; cases hr'
+            | some ph' =>
+              rw [hph] at hr'
+              simp only [Option.map_some] at hr'
+              rw [← Option.some.inj hr']
+              exact ⟨micro_notLru hcap r.explicit c.s r.phase g1 ph' hph, fun pc hx => by cases hx⟩
+      · rw [if_neg ht] at hs; cases hs
+
+theorem reach_simple {p : Params} (hcap : p.cap = none) {c : FState} (h : Reach p c) :
+    Simple c := by
+  induction h with
+  | init => intro r hr; cases hr
+  | step e _ hs ih => exact step_simple hcap ih e hs
+
+/-- Without `max_capacity`, a micro-step of a run keeps every binding of the map, except that
+an iteration of an expiry loop may remove an entry that is expired or hidden by the watermark
+(judged on the state after the step). -/
+theorem mstep_kept_none {p : Params} (hq : NoQuirks p) (hcap : p.cap = none) {c c' : FState}
+    (h : FInv p c) (hsim : Simple c) (t : Tid) (hs : step p .good c (.mStep t) = some c')
+    (k : Nat) (ve : VE) (hk : AL.get? c.s.map k = some ve) :
+    AL.get? c'.s.map k = some ve ∨
+      isExpiredInfo p c'.s (getInfo c'.s ve.info) c'.s.now = true := by
+  have hd8 : p.q.d8 = false := by rw [hq]
+  simp only [step] at hs
+  unfold FInv at h
+  cases hr : c.run with
+  | none => rw [hr] at hs; cases hs
+  | some r =>
+    rw [hr] at hs h
+    dsimp only at hs h
+    obtain ⟨g1, g2⟩ := hsim r hr
+    by_cases ht : r.tid = t
+    · rw [if_pos ht] at hs
+      rw [← Option.some.inj hs]
+      dsimp only
+      have hsame : ∀ s' : SState, s'.map = c.s.map → AL.get? s'.map k = some ve ∨
+          isExpiredInfo p s' (getInfo s' ve.info) s'.now = true :=
+        fun s' e => Or.inl (by rw [e]; exact hk)
+      cases hw : r.w with
+      | some pc =>
+        have hm : (fmicro p .good r.explicit c.s r.phase (some pc)).1 = (wstep p .good c.s pc).1 := rfl
+        rw [hm]
+        refine hsame _ ?_
+        have hsp := g2 pc hw
+        cases pc with
+        | clearDirty u => rfl
+        | readCurrent u => rfl
+        | dispatch u nw cur =>
+          simp only [wstep, hasEnoughCapacity_none hcap, if_true]
+          split
+          · exact applyUpdate_map _ _ _ _ _
+          · split
+            · rfl
+            · exact (handleAdmit_spec hd8 c.s u.key u.hash u.ve nw).1
+        | scan u nw cf rest acc => exact hsp.elim
+        | victims u nw vs sk => exact hsp.elim
+        | reject u sk => exact hsp.elim
+        | readCurrentB1 u => exact hsp.elim
+        | clearDirtyB1 u nw cur => exact hsp.elim
+        | victimsB2 u nw vs sk ev al => exact hsp.elim
+        | putBackB2 u ev sk => exact hsp.elim
+      | none =>
+        rw [hw] at h
+        dsimp only at h
+        have hkn := (rinv_of_view h.2.1).run.map.kn
+        have hkept : ∀ s' : SState, Kept p c.s s' → Frame0 c.s s' → AL.get? s'.map k = some ve ∨
+            isExpiredInfo p s' (getInfo s' ve.info) s'.now = true := by
+          intro s' hkp hf
+          rcases hkp hkn k ve hk with a | a
+          · exact Or.inl a
+          · exact Or.inr (by rw [isExpiredInfo_frame0 p hf]; exact a)
+        cases hph : r.phase with
+        | reads f n =>
+          cases n with
+          | zero => exact hsame _ rfl
+          | succ n =>
+            cases hrq : c.s.readQ with
+            | nil => exact hsame _ (by simp only [fmicro, micro, hrq])
+            | cons op rest =>
+              refine hsame _ ?_
+              have : (fmicro p .good r.explicit c.s (.reads f (n + 1)) none).1 =
+                  applyRead p { c.s with readQ := rest } op := by simp only [fmicro, micro, hrq]
+              rw [this]
+              exact (applyRead_same p _ op).map
+        | writes f n =>
+          cases n with
+          | zero => exact hsame _ rfl
+          | succ n =>
+            cases hwq : c.s.writeQ with
+            | nil => exact hsame _ (by simp only [fmicro, micro, hwq])
+            | cons op rest =>
+              cases op with
+              | upsert key hash ve' oldW newW =>
+                exact hsame _ (by simp only [fmicro, hwq])
+              | remove k' ve' =>
+                refine hsame _ ?_
+                have : (fmicro p .good r.explicit c.s (.writes f (n + 1)) none).1 =
+                    handleRemove { c.s with writeQ := rest } ve' := by
+                  simp only [fmicro, micro, hwq, applyWrite]
+                rw [this]
+                exact handleRemove_map _ _
+        | enable f =>
+          refine hsame _ ?_
+          have : (fmicro p .good r.explicit c.s (.enable f) none).1
+              = (if shouldEnableSketch p c.s = true then enableSketch p c.s else c.s) := by
+            simp only [fmicro, micro]; split <;> (split <;> rfl)
+          rw [this]
+          split
+          · exact (enableSketch_same p c.s).map
+          · rfl
+        | expireWo n =>
+          cases n with
+          | zero => exact hsame _ rfl
+          | succ n =>
+            have : (fmicro p .good r.explicit c.s (.expireWo (n + 1)) none).1
+                = removeExpiredWo p 1 c.s := by
+              rw [← expireWoBody_eq]
+              simp only [fmicro, micro]; split <;> rfl
+            rw [this]
+            exact hkept _ (removeExpiredWo_kept p 1 c.s) (removeExpiredWo_frame0 p 1 c.s)
+        | expireAo n =>
+          cases n with
+          | zero => exact hsame _ rfl
+          | succ n =>
+            have : (fmicro p .good r.explicit c.s (.expireAo (n + 1)) none).1
+                = removeExpiredAo p 1 c.s := by
+              rw [← expireAoBody_eq]
+              simp only [fmicro, micro]; split <;> rfl
+            rw [this]
+            exact hkept _ (removeExpiredAo_kept p 1 c.s) (removeExpiredAo_frame0 p 1 c.s)
+        | lru n wte ev => rw [hph] at g1; exact g1.elim
+        | finish =>
+          refine hsame _ ?_
+          cases hex : r.explicit <;> rfl
     · rw [if_neg ht] at hs; cases hs
 
 end ConcF
